@@ -206,6 +206,123 @@ func runC13(w *World, r *Report, tier string) {
 		}
 		r.Check(s.perm == fmt.Sprint(req), "R3", cons, w.ipos(s.call), fmt.Sprintf("permanent=%s but %s", s.perm, why[req]), fmt.Sprintf("permanent=%s as required for cause %s", s.perm, s.origin))
 	}
+	// a ConnError must not wrap an error that may already be a classified ConnError: xerrors.As finds the outermost
+	// one, so the inner permanence (rejected credentials) would be hidden behind the wrapper's
+	{
+		fErr := w.Field("xmpp.Session.err")
+		memoRet := map[*ssa.Function]int{}
+		var mayReturnConnErr func(f *ssa.Function, depth int) bool
+		mayReturnConnErr = func(f *ssa.Function, depth int) bool {
+			if f == nil || f.Blocks == nil || depth > 5 {
+				return false
+			}
+			if v, ok := memoRet[f]; ok {
+				return v == 1
+			}
+			memoRet[f] = 0
+			res := false
+			allInstrs(f, func(in ssa.Instruction) {
+				rt, ok := in.(*ssa.Return)
+				if !ok || len(rt.Results) == 0 {
+					return
+				}
+				v := rt.Results[len(rt.Results)-1]
+				if mi, ok := v.(*ssa.MakeInterface); ok {
+					v = mi.X
+				}
+				if ex, ok := v.(*ssa.Extract); ok {
+					v = ex.Tuple
+				}
+				if c, ok := v.(*ssa.Call); ok {
+					if w.callKey(c) == "xmpp.NewConnError" || mayReturnConnErr(c.Call.StaticCallee(), depth+1) {
+						res = true
+					}
+				}
+			})
+			if res {
+				memoRet[f] = 1
+			}
+			return res
+		}
+		storesErr := func(f *ssa.Function) (stores bool, connErr bool) {
+			seen := map[*ssa.Function]bool{}
+			var visit func(g *ssa.Function, depth int)
+			visit = func(g *ssa.Function, depth int) {
+				if g == nil || g.Blocks == nil || seen[g] || depth > 5 || !w.inModule(g) {
+					return
+				}
+				seen[g] = true
+				allInstrs(g, func(in ssa.Instruction) {
+					if st, ok := in.(*ssa.Store); ok {
+						if fa, ok := st.Addr.(*ssa.FieldAddr); ok && fieldOfAddr(fa) == fErr {
+							stores = true
+							v := st.Val
+							if mi, ok := v.(*ssa.MakeInterface); ok {
+								v = mi.X
+							}
+							if ex, ok := v.(*ssa.Extract); ok {
+								v = ex.Tuple
+							}
+							if c, ok := v.(*ssa.Call); ok {
+								if w.callKey(c) == "xmpp.NewConnError" || mayReturnConnErr(c.Call.StaticCallee(), 0) {
+									connErr = true
+								}
+							}
+						}
+					}
+					if c, ok := in.(*ssa.Call); ok {
+						visit(c.Call.StaticCallee(), depth+1)
+					}
+				})
+			}
+			visit(f, 0)
+			return
+		}
+		nRW := 0
+		for _, s := range judged {
+			if s.origin != "field:Session.err" {
+				continue
+			}
+			nRW++
+			cons := w.funcKey(s.fn) + "#NewConnError(field:Session.err)#not-rewrapped"
+			if nRW > 1 {
+				cons = fmt.Sprintf("%s#%d", cons, nRW)
+			}
+			fn := s.fn
+			isSite := func(in ssa.Instruction) bool { return in == s.call.(ssa.Instruction) }
+			bad := ""
+			nP := 0
+			err := walkPaths(entryLoc(fn), isSite, nil, 100000, func(path []ssa.Instruction, end pathEnd) {
+				if !isSite(path[len(path)-1]) {
+					return
+				}
+				nP++
+				for i := len(path) - 2; i >= 0; i-- {
+					c, ok := path[i].(*ssa.Call)
+					if !ok {
+						continue
+					}
+					callee := c.Call.StaticCallee()
+					if callee == nil || !w.inModule(callee) {
+						continue
+					}
+					st, ce := storesErr(callee)
+					if !st {
+						continue
+					}
+					if ce {
+						bad = "the error wrapped here can be the classified error that " + w.funcKey(callee) + " recorded (" + w.ipos(c) + "): the new ConnError hides its permanence from the retry loop, so rejected credentials are retried for ever"
+					}
+					break
+				}
+			})
+			if err != nil {
+				r.Undecided("R3", cons, w.ipos(s.call), err.Error())
+				continue
+			}
+			r.Check(bad == "" && nP > 0, "R3", cons, w.ipos(s.call), bad, "the last step that records an error before this site never records a ConnError")
+		}
+	}
 	r.Floor("R3", 10)
 	var ls []string
 	for _, s := range listed {
